@@ -766,6 +766,64 @@ func runGrpcFlow(c *core.Ctx) {
 		c.Check(ok2, "server: status.New(code, err.Error())", call.Pos(), "the status message is the handler error's text", "the gRPC status message is not the handler error's Error() text (it is transformed by something else than strings.ToValidUTF8 first): the status differs from the error")
 		c.Check(sanitised, "server: status message is valid UTF-8", call.Pos(), "strings.ToValidUTF8(err.Error(), …)", "the gRPC status message is the raw Error() text: when it is not valid UTF-8 (a key, a file name, user input quoted in the message) gRPC fails to marshal the status and sends it without details, so the caller receives a bare status error instead of the handler's error")
 	})
+	// round 12: the status that RECEIVES the details is one that the interceptor built with status.New (whose message the
+	// clause above proves valid UTF-8) on every path - never the status that status.FromError prepared on its not-ok edge:
+	// that one carries the raw Error() text (FromError(err) = New(Unknown, err.Error())), so for a text that is not
+	// valid UTF-8 gRPC drops the details and the caller receives a bare status
+	nWD := 0
+	sreg.each(func(in ssa.Instruction) {
+		call, ok := in.(*ssa.Call)
+		if !ok || sx.Callee(call) == nil || sx.Callee(call).Name() != "WithDetails" || sx.Callee(call).Signature.Recv() == nil || len(call.Call.Args) < 1 {
+			return
+		}
+		nWD++
+		var built func(v ssa.Value, d int) bool
+		seen := map[ssa.Value]bool{}
+		built = func(v ssa.Value, d int) bool {
+			if d > 6 {
+				return false
+			}
+			if seen[v] {
+				return true
+			}
+			seen[v] = true
+			switch x := v.(type) {
+			case *ssa.Phi:
+				for _, e := range x.Edges {
+					if !built(e, d+1) {
+						return false
+					}
+				}
+				return true
+			case *ssa.Parameter:
+				if r := sreg.resolve(x); r != nil && r != ssa.Value(x) {
+					return built(r, d+1)
+				}
+				return false
+			case *ssa.Call:
+				f := sx.Callee(x)
+				if f == nil {
+					return false
+				}
+				if pk := load.FnPkg(f); f.Name() == "New" && len(x.Call.Args) == 2 && pk != nil && strings.Contains(pk.Path(), "status") {
+					return true
+				}
+				if sreg.in[f] && f != srv {
+					rets := sx.Returns(f)
+					for _, hr := range rets {
+						if len(hr.Results) != 1 || !built(hr.Results[0], d+1) {
+							return false
+						}
+					}
+					return len(rets) > 0
+				}
+			}
+			return false
+		}
+		c.Check(built(call.Call.Args[0], 0), "server: status that receives the details", call.Pos(), "built by status.New(code, valid-UTF-8 text) on every path",
+			"on some path the details are attached to a status that the interceptor did not build with status.New (the status prepared by status.FromError on its not-ok edge carries the raw Error() text): when that text is not valid UTF-8 gRPC fails to marshal the status and sends it without details, so the caller receives a bare status error instead of the handler's error")
+	})
+	c.Check(nWD >= 1, "server: WithDetails", srv.Pos(), "the encoded error is attached with WithDetails", "the interceptor no longer attaches the encoded error with WithDetails")
 	c.Check(sawGetCode, "server: extgrpc.GetGrpcCode(err)", srv.Pos(), "code taken from the handler's error", "the gRPC code is not computed from the handler's error")
 	// grpc/status.Code forwards to extgrpc.GetGrpcCode, nothing else
 	if codeFn := p.Func("grpc/status", "Code"); codeFn != nil {
